@@ -112,6 +112,20 @@ def check_case(ctx, cs):
             ok, got = _try(ctx, cname + ".derivatives", tg + ["tuples_and_ints"], small, lambda: obja.derivatives(*prm2, order=order))
             if ok:
                 check_table(ctx, cname + ".derivatives", tg + ["tuples_and_ints"], small, got, o, sh, pd, order)
+        # just LEFT of an interior knot the parameter belongs to the left span: every derivative is a polynomial there, so the values
+        # 2^-40 and 2^-20 before the knot differ by O(2^-20) only (the left span must be chosen however close the knot is)
+        if pd == 1 and order >= 1:
+            U_ = [float(fr(k)) for k in sh["kv"][0]]
+            u0 = prm[0]
+            if U_[0] < u0 < U_[-1] and any(abs(k - u0) < 1e-15 for k in U_) and all(not (u0 - 2.0 ** -19 < k < u0) for k in U_):
+                def near_left():
+                    ob = build(sh)
+                    return ob.derivatives(u0 - 2.0 ** -40, order=order), ob.derivatives(u0 - 2.0 ** -20, order=order)
+                ok, r_ = _try(ctx, cname + ".derivatives", tg + ["just_left_of_knot"], small, near_left)
+                if ok:
+                    sc_ = max(1.0, max(abs(x) for row in r_[1] for x in row))
+                    if any(abs(a_ - b_) > 1e-3 * sc_ for ra, rb in zip(r_[0], r_[1]) for a_, b_ in zip(ra, rb)):
+                        ctx.violate(cname + ".derivatives", tg + ["just_left_of_knot"], small, {"at_knot_minus_2^-40": r_[0][-1], "at_knot_minus_2^-20": r_[1][-1]})
         # the documented span-search option: the derivatives (right-hand ones at a knot) are the same with the bisection search
         from geomdl import helpers as _helpers
         ok, objb = _try(ctx, cname + ".build", tg, small, lambda: build(sh, span_func=_helpers.find_span_binsearch))
